@@ -192,6 +192,27 @@ def do_step(ctx, w, rng, mode):
     rec = {"op": op, "i": i, "kind": kind, "g": m["g"],
            "t": m["t"] if kind in ("mol", "atom") else None, "alloc_only": op in PRODUCERS}
     n = natoms(o)
+    if op == "copy" and kind == "mol" and rng.random() < 0.25:
+        # copy(new_residues): the optional argument, with residues that are still OWNED by a live object — the
+        # molecule's own, or those of another molecule with the same topology.  The result must be as isolated
+        # from their owner as any other copy (Molecule.__init__ copies the residues it is given; seed C18-3).
+        donors = [j for j, mj in enumerate(w.meta) if mj["kind"] == "mol" and mj["t"] == m["t"]]
+        j = i if rng.random() < 0.5 else rng.choice(donors)
+        donor = w.env[j]
+        try:
+            sizes = [len(r) for r in donor.residues]
+            flat = [hg._gro_obs(ag) for r in donor.residues for ag in r]
+            toks = f"molwith {i} " + hg.residues_tokens(flat, sizes)
+        except Exception:   # noqa: BLE001  (donor in an inconsistent state)
+            toks = None
+        if toks is not None:
+            st, _ = w.run(toks, f"mol[{i}].copy(mol[{j}].residues)", lambda: o.copy(donor.residues),
+                          {"g": w.new_g(), "t": m["t"], "parent": None, "k": None})
+            rec["variant"] = "copy-with-residues-of-" + ("self" if j == i else "other")
+            ctx.count("copy:with-live-residues:" + st)
+            rec["status"] = st
+            rec["op"] = "molwith"
+            return rec
     if op == "copy":
         variant = rng.choice(["copy", "copy", "align-start", "align-end"]) if kind == "mol" else "copy"
 
